@@ -3,7 +3,7 @@ import re
 from core import Loc
 from engine import RuleResult, MAIN, LEFT, OLD, CURSOR
 from rules_protocol import hb_calls, HBT, HBI
-from rules_typestate import movers, _range_trip, replacer_sites
+from rules_typestate import movers, _range_trip, replacer_sites, reentry_guard, full_test_switches
 
 INF = float("inf")
 
@@ -213,29 +213,6 @@ class Cost:
                 b = best[s_] if b is None else self.mx(b, best[s_])
             best[x] = None if b is None else self.add(w.get(x, self.ZERO), b)
         return best.get(0) or dict(self.ZERO)
-
-
-def reentry_guard(ctx, body, rec_bb):
-    """the block entered when `MAIN.capacity() == MAIN.len()` holds, if that test dominates block rec_bb and rec_bb lies on its true edge"""
-    for bb in body.dom().get(rec_bb, set()):
-        t = body.term(bb)
-        if t["k"] != "switch":
-            continue
-        d = body.source_def(t["discr"])
-        if d is None or d[1] != "assign" or d[2]["rv"]["k"] != "binop" or d[2]["rv"]["op"] != "Eq":
-            continue
-        names = set()
-        for o in (d[2]["rv"]["a"], d[2]["rv"]["b"]):
-            sd = body.source_def(o)
-            if sd is not None and sd[1] == "call":
-                cc = ctx.call_at(body, sd[0].bb)
-                if ctx.role(body, cc.arg_path(0)) == MAIN:
-                    names.add(cc.tname)
-        if names == {HBT + "capacity", HBT + "len"}:
-            tb = t["otherwise"]
-            if (tb in body.dom().get(rec_bb, set()) or tb == rec_bb) and body.preds(tb, True) == [bb]:
-                return tb
-    return None
 
 
 def cost_engine(ctx):
